@@ -66,6 +66,7 @@ const (
 	EBadArity           = "BadArity"
 	EInvalidType        = "InvalidType"
 	EBadPortion         = "BadPortion"
+	EInvalidAccountName = "InvalidAccountName"
 )
 
 type Err struct {
@@ -164,6 +165,9 @@ func fail(class, f string, a ...any) *Err { return &Err{Class: class, Msg: fmt.S
 func ParseVarText(typ, raw string) (Val, *Err) {
 	switch typ {
 	case TAccount:
+		if !validAccountName(raw) {
+			return Val{}, fail(EInvalidAccountName, "account %q", raw)
+		}
 		return Val{T: TAccount, S: raw}, nil
 	case TAsset:
 		return Val{T: TAsset, S: raw}, nil
@@ -1012,4 +1016,27 @@ func EvalIn(env map[string]Val, e *gen.Expr) (Val, bool) {
 	st := &state{env: env, vis: Sheet{}}
 	v, err := st.eval(e)
 	return v, err == nil
+}
+
+// validAccountName: the syntax of account literals, [a-zA-Z0-9_-]+ (':' [a-zA-Z0-9_-]+)*
+func validAccountName(s string) bool {
+	if s == "" {
+		return false
+	}
+	seg := 0
+	for i := 0; i < len(s); i++ {
+		c := s[i]
+		switch {
+		case c >= 'a' && c <= 'z', c >= 'A' && c <= 'Z', c >= '0' && c <= '9', c == '_', c == '-':
+			seg++
+		case c == ':':
+			if seg == 0 {
+				return false
+			}
+			seg = 0
+		default:
+			return false
+		}
+	}
+	return seg > 0
 }
